@@ -4,11 +4,13 @@ package main
 
 import (
 	"bufio"
+	"bytes"
 	"encoding/hex"
 	"fmt"
 	"sort"
 	"strconv"
 	"strings"
+	"time"
 
 	"google.golang.org/protobuf/encoding/protowire"
 	"google.golang.org/protobuf/proto"
@@ -195,7 +197,11 @@ func init() {
 			return err
 		}
 		emitSchemas(u, out)
-		types := u.usableTypes(nil)
+		filter := ""
+		if len(args) > 2 {
+			filter = args[2]
+		}
+		types := u.usableTypes(func(ti *TypeInfo) bool { return filter == "" || strings.Contains(ti.Key, filter) })
 		r := newRng(seed)
 		st := rwStats{}
 		for i := 0; i < n; i++ {
@@ -229,6 +235,66 @@ func init() {
 		}
 		emitSchemas(u, out)
 		u.histCase(out, ti, chunks)
+		return nil
+	})
+	// deep <seed>: nesting-depth and cost boundaries under a watchdog
+	register("deep", func(args []string, out *bufio.Writer) error {
+		u, err := loadUniverse()
+		if err != nil {
+			return err
+		}
+		emitSchemas(u, out)
+		var targets []*TypeInfo
+		for _, k := range []string{"test.proto:Person", "test.proto:UnknownMessage", "types.proto:Map"} {
+			if ti := u.Types[k]; ti != nil {
+				targets = append(targets, ti)
+			}
+		}
+		// recursive message types (from fresh schemas), if any
+		for _, k := range u.Order {
+			ti := u.Types[k]
+			for _, f := range ti.S.Msgs[ti.MI].Fields {
+				if f.Msg == ti.MI && f.Label != LRepeated && !ti.S.hasOpaque(ti.MI) {
+					targets = append(targets, ti)
+					// 10 000-deep chain of sub-messages in field f
+					for _, depth := range []int{100, 10000} {
+						var b []byte
+						for i := 0; i < depth; i++ {
+							b = protowire.AppendBytes(protowire.AppendTag(nil, protowire.Number(f.Num), protowire.BytesType), b)
+						}
+						u.timedDec(out, ti, b, fmt.Sprintf("nested-%d", depth))
+					}
+					break
+				}
+			}
+		}
+		for _, ti := range targets {
+			for _, depth := range []int{3, 9999, 10000, 10001, 10002, 10003} {
+				var b []byte
+				for i := 0; i < depth; i++ {
+					b = protowire.AppendTag(b, 60, protowire.StartGroupType)
+				}
+				for i := 0; i < depth; i++ {
+					b = protowire.AppendTag(b, 60, protowire.EndGroupType)
+				}
+				u.timedDec(out, ti, b, fmt.Sprintf("groups-%d", depth))
+			}
+			// many small unknown fields: the skip path of Loop runs once per field
+			var b []byte
+			for _, cnt := range []int{4000, 200000} {
+				b = nil
+				for i := 0; i < cnt; i++ {
+					b = protowire.AppendVarint(protowire.AppendTag(b, 61, protowire.VarintType), uint64(i))
+				}
+				u.timedDec(out, ti, b, fmt.Sprintf("many-unknown-%d", cnt))
+			}
+			// unterminated group chain (truncation at every depth is the prefix stream's job)
+			b = nil
+			for i := 0; i < 5000; i++ {
+				b = protowire.AppendTag(b, 62, protowire.StartGroupType)
+			}
+			u.timedDec(out, ti, b, "unterminated-groups-5000")
+		}
 		return nil
 	})
 	// dec-one <typekey> <hex>
@@ -388,4 +454,22 @@ func shortTokens(r *rng, ti *TypeInfo) []byte {
 		}
 	}
 	return b
+}
+
+// timedDec is decCase under a wall-clock watchdog (flag "slow" beyond 3 s).
+func (u *Universe) timedDec(out *bufio.Writer, ti *TypeInfo, data []byte, tag string) {
+	start := time.Now()
+	var buf bytes.Buffer
+	w := bufio.NewWriter(&buf)
+	u.decCase(w, ti, data, tag)
+	w.Flush()
+	line := strings.TrimRight(buf.String(), "\n")
+	if time.Since(start) > 3*time.Second {
+		cols := strings.Split(line, "\t")
+		if len(cols) > 8 {
+			cols[8] += ",slow"
+			line = strings.Join(cols, "\t")
+		}
+	}
+	fmt.Fprintln(out, line)
 }
